@@ -10,6 +10,9 @@ R4  the recursive notifier is called with its contract: child mutex held, and th
 R5  a child is appended to some note P's children list (adoption by nsync_note_free) only in a critical section of P's mutex in which P was found
     not notified - otherwise a notifier or freer of P that is already waiting for P's child list to drain is blocked until the adopted child goes
     away, and the child of the already notified P is never notified.
+R6  a notifier performs the unlock-n / lock-cached-parent step only if it raised n->disconnecting from zero (path-sensitive: the count read
+    under n's mutex is abstracted to {0, non-zero}); otherwise a second disconnector can unlink n, the parent is freed, and the stale pointer is
+    locked (finding F5, repaired).
 Absence of deadlock / use-after-free over all interleavings is not decided beyond these mechanisms."""
 from .. import util, ir as IR, objmodel
 from ..report import Violation, AnalysisBroken
@@ -27,7 +30,8 @@ def run(ctx, rep):
                    ('C09.R2', 'the cached parent is locked without holding n only while n->disconnecting is raised'),
                    ('C09.R3', 'free after the child list drained, no mutex held, no later access'),
                    ('C09.R4', 'recursive notifier called with child and parent mutex held'),
-                   ('C09.R5', 'adoption appends to a parent only after finding it not notified in the same critical section')):
+                   ('C09.R5', 'adoption appends to a parent only after finding it not notified in the same critical section'),
+                   ('C09.R6', 'a notifier locks the cached parent (note mutex released) only as the sole disconnector of the note')):
         rep.rule(rid, d)
     def relation(entry, held_obj, acq_obj):
         if eng.derives_from(entry, acq_obj, held_obj, 'nsync_note_s_.children'):
@@ -65,6 +69,20 @@ def run(ctx, rep):
                                 rep.violate(Violation('C09.R2', r.where(),
                                     'the cached parent pointer of a note is locked while that note\'s own mutex is not held and its disconnecting count is not raised: a concurrent free of the parent can adopt the note away and free the parent first (use after free) [entry %s]' % r.entry,
                                     site='%s/parent-without-disconnecting' % r.inst.fn.name))
+                            # R6: ... and only by the sole disconnector.  The raised count keeps the parent alive only as long as n stays on
+                            # the parent's child list (a freer of the parent waits for that list to drain); another thread that is also
+                            # disconnecting n (a second nsync_note_notify(n), or the lazy expiry run by a poll) unlinks n when it finishes,
+                            # after which the parent may be freed while this thread still holds the stale pointer.  nsync_note_free(n) is
+                            # exempt: no other operation on n may be concurrent with it (client contract), so nobody else disconnects n.
+                            if r.entry.startswith('nsync_note_free'):
+                                continue
+                            excl = r.flags.get(('disc_excl', n)) == 1
+                            rep.instance('C09.R6', 'lock of cached %s->parent at %s: count raised from zero (sole disconnector)=%s [%s]' % (n.base, r.where(), excl, r.entry))
+                            rep.oblig('C09.R6', excl)
+                            if not excl:
+                                rep.violate(Violation('C09.R6', r.where(),
+                                    'a notifier releases the note\'s mutex and locks the cached parent although another thread may already be disconnecting the same note (the disconnecting count was not found zero before it was raised): when that thread unlinks the note, a concurrent nsync_note_free of the parent finds no children and frees it, and this thread then locks freed memory [entry %s]' % r.entry,
+                                    site='%s/stale-parent-second-disconnector' % r.inst.fn.name))
         elif r.kind == 'free' and isinstance(r.ptr, Ptr) and r.entry.startswith('nsync_note'):
             waited = r.flags.get(('waited', r.ptr)) == 1
             held = [m for m in r.held]
